@@ -311,6 +311,16 @@ func (x *Unit) libCall(st *State, pc *preparedCall, name string, n int) ([]Val, 
 		return []Val{x.freshVal(st, "sprintf", rt(0))}, true
 	case "fmt.Println", "fmt.Printf", "fmt.Print", "fmt.Fprintf", "fmt.Fprintln", "fmt.Fprint":
 		return x.freshResults(st, sig, "print"), true
+	// ----- reflect (only what links a reflected length to the slice it came from)
+	case "reflect.ValueOf":
+		rv := x.freshVal(st, "reflectValue", rt(0))
+		x.assume(st, Eq(x.uf("reflectSrc_"+sortIdent(rv.Sort), SIface, rv.T), args[0].T))
+		return []Val{rv}, true
+	case "(reflect.Value).Len":
+		r := x.uf("reflectLen", SInt, x.uf("reflectSrc_"+sortIdent(recv.Sort), SIface, recv.T))
+		x.assume(st, Cmp(">=", r, IntLit(0)))
+		x.note("reflect.ValueOf(x).Len() is len(x) for a slice x; other uses of reflect are uninterpreted")
+		return one(r, rt(0))
 	// ----- math
 	case "math.Sqrt":
 		s := x.fresh("sqrt", SReal)
